@@ -20,6 +20,7 @@ import (
 	"fmt"
 	"go/ast"
 	"path/filepath"
+	"sort"
 	"strings"
 )
 
@@ -261,6 +262,188 @@ func genPeerReads(hl, mb *pkgFiles, hdr, out string) {
 		}
 		b.WriteString(leanStr(m))
 	}
+	b.WriteString("]\n\n")
+	acc := acceptLoopReads(hl)
+	b.WriteString("/-- (function, kind, call): for every function of package hotline that ACCEPTS connections (calls `.Accept()`), every\n    use of the accepted connection that reads from it or passes it (or something wrapping it) on, in source order:\n    handoff = the connection itself given to handleNewConnection / handleFileTransfer; exact / other = a read in the\n    accept loop before the handler gets the connection; wrapped = a wrapper around the connection is handed on -/\ndef acceptLoopReads : List (String × String × String) := [\n")
+	for i, e := range acc {
+		sep := ","
+		if i == len(acc)-1 {
+			sep = ""
+		}
+		fmt.Fprintf(&b, "  (%s, %s, %s)%s\n", leanStr(e[0]), leanStr(e[1]), leanStr(e[2]), sep)
+	}
 	b.WriteString("]\n\nend Mobius.Generated\n")
 	writeIfChanged(filepath.Join(out, "PeerReads.lean"), b.String())
+}
+
+// ---------------------------------------------------------------- accept loops
+
+var wrapperCtors = map[string]bool{"io.MultiReader": true, "io.TeeReader": true, "io.LimitReader": true, "bufio.NewReader": true,
+	"bufio.NewReaderSize": true, "bufio.NewReadWriter": true, "io.NopCloser": true, "io.NewSectionReader": true}
+
+// carries: does the expression evaluate to (something holding) one of the connections?  Method calls on a connection
+// (conn.RemoteAddr()) do not carry it.
+func carries(e ast.Expr, conns map[string]bool) bool {
+	switch v := e.(type) {
+	case *ast.Ident:
+		return conns[v.Name]
+	case *ast.ParenExpr:
+		return carries(v.X, conns)
+	case *ast.TypeAssertExpr:
+		return carries(v.X, conns)
+	case *ast.StarExpr:
+		return carries(v.X, conns)
+	case *ast.UnaryExpr:
+		return carries(v.X, conns)
+	case *ast.KeyValueExpr:
+		return carries(v.Value, conns)
+	case *ast.CompositeLit:
+		for _, el := range v.Elts {
+			if carries(el, conns) {
+				return true
+			}
+		}
+	case *ast.CallExpr:
+		f := strings.Join(strings.Fields(src(v.Fun)), "")
+		if wrapperCtors[f] || f == "struct{io.Reader;io.WriteCloser}" {
+			for _, a := range v.Args {
+				if carries(a, conns) {
+					return true
+				}
+			}
+		}
+	}
+	return false
+}
+
+func acceptLoopReads(hl *pkgFiles) [][3]string {
+	var out [][3]string
+	var names []string
+	for n := range hl.files {
+		names = append(names, n)
+	}
+	sort.Strings(names)
+	for _, fname := range names {
+		if fname == "client.go" || fname == "tracker.go" { // the Hotline / tracker CLIENT sides dial, they do not accept
+			continue
+		}
+		for _, d := range hl.files[fname].Decls {
+			fd, ok := d.(*ast.FuncDecl)
+			if !ok || fd.Body == nil {
+				continue
+			}
+			conns := map[string]bool{}    // the accepted connections themselves
+			derived := map[string]bool{}  // wrappers / copies
+			ast.Inspect(fd.Body, func(n ast.Node) bool {
+				as, ok := n.(*ast.AssignStmt)
+				if !ok || len(as.Rhs) != 1 {
+					return true
+				}
+				if call, ok := as.Rhs[0].(*ast.CallExpr); ok {
+					if se, ok := call.Fun.(*ast.SelectorExpr); ok && se.Sel.Name == "Accept" && len(call.Args) == 0 {
+						if id, ok := as.Lhs[0].(*ast.Ident); ok {
+							conns[id.Name] = true
+						}
+					}
+				}
+				return true
+			})
+			if len(conns) == 0 {
+				continue
+			}
+			all := func() map[string]bool {
+				m := map[string]bool{}
+				for k := range conns {
+					m[k] = true
+				}
+				for k := range derived {
+					m[k] = true
+				}
+				return m
+			}
+			for changed := true; changed; {
+				changed = false
+				ast.Inspect(fd.Body, func(n ast.Node) bool {
+					if vs, ok := n.(*ast.ValueSpec); ok { // var rw io.ReadWriter = <wrapper>
+						for i, v := range vs.Values {
+							if i < len(vs.Names) && !conns[vs.Names[i].Name] && !derived[vs.Names[i].Name] && carries(v, all()) {
+								derived[vs.Names[i].Name] = true
+								changed = true
+							}
+						}
+						return true
+					}
+					as, ok := n.(*ast.AssignStmt)
+					if !ok || len(as.Rhs) != 1 || len(as.Lhs) < 1 {
+						return true
+					}
+					id, ok := as.Lhs[0].(*ast.Ident)
+					if !ok || conns[id.Name] || derived[id.Name] {
+						return true
+					}
+					if carries(as.Rhs[0], all()) {
+						derived[id.Name] = true
+						changed = true
+					}
+					return true
+				})
+			}
+			streams := all()
+			ast.Inspect(fd.Body, func(n ast.Node) bool {
+				c, ok := n.(*ast.CallExpr)
+				if !ok {
+					return true
+				}
+				f := strings.Join(strings.Fields(src(c.Fun)), "")
+				text := strings.Join(strings.Fields(src(c)), " ")
+				if len(text) > 90 {
+					text = text[:90]
+				}
+				arg := func(i int) bool { return i < len(c.Args) && carries(c.Args[i], streams) }
+				switch {
+				case (f == "io.ReadFull" || f == "binary.Read") && arg(0), f == "io.CopyN" && arg(1):
+					out = append(out, [3]string{fd.Name.Name, "exact", text})
+					return true
+				case (f == "io.Copy" || f == "io.CopyBuffer") && arg(1), (f == "io.ReadAll" || f == "io.ReadAtLeast" || f == "bufio.NewScanner") && arg(0):
+					out = append(out, [3]string{fd.Name.Name, "other", text})
+					return true
+				}
+				if wrapperCtors[f] {
+					return true // accounted for where the wrapper is used
+				}
+				if se, ok := c.Fun.(*ast.SelectorExpr); ok {
+					if id, ok := se.X.(*ast.Ident); ok && streams[id.Name] {
+						switch se.Sel.Name {
+						case "Read", "ReadByte", "ReadString", "ReadBytes", "Peek", "ReadLine", "WriteTo", "ReadFrom", "Discard":
+							out = append(out, [3]string{fd.Name.Name, "other", text})
+						}
+						return true
+					}
+				}
+				name := f
+				if i := strings.LastIndex(name, "."); i >= 0 {
+					name = name[i+1:]
+				}
+				for _, a := range c.Args {
+					if !carries(a, streams) {
+						continue
+					}
+					id, isIdent := a.(*ast.Ident)
+					switch {
+					case (name == "handleNewConnection" || name == "handleFileTransfer") && isIdent && conns[id.Name]:
+						out = append(out, [3]string{fd.Name.Name, "handoff", name})
+					case name == "handleNewConnection" || name == "handleFileTransfer":
+						out = append(out, [3]string{fd.Name.Name, "wrapped", text})
+					case strings.HasPrefix(f, "io.Copy") || f == "io.WriteString" || strings.HasPrefix(f, "binary.Write") || strings.HasPrefix(f, "fmt.Fprint"):
+						// the connection is the destination of a write (first argument) — a read from it was classified above
+					default:
+						out = append(out, [3]string{fd.Name.Name, "other", "passed to " + text})
+					}
+					break
+				}
+				return true
+			})
+		}
+	}
+	return out
 }
